@@ -32,7 +32,7 @@ struct Rec {
         std::vector<std::string> v; if (type != -1) return v;
         size_t len = dims.empty() ? 1 : (size_t)dims[0]; size_t cnt = 1; for (size_t i = 1; i < dims.size(); ++i) cnt *= (size_t)dims[i];
         if (dims.size() <= 1) cnt = 1;
-        for (size_t k = 0; k < cnt; ++k) { std::string s; if ((k + 1) * len <= data.size()) s.assign((const char*)&data[k * len], len); if (trim) { while (!s.empty() && (s.back() == ' ')) s.pop_back(); } v.push_back(s); }
+        for (size_t k = 0; k < cnt; ++k) { std::string s; if (len > 0 && (k + 1) * len <= data.size()) s.assign((const char*)data.data() + k * len, len); if (trim) { while (!s.empty() && (s.back() == ' ')) s.pop_back(); } v.push_back(s); }
         return v;
     }
     size_t elemCount() const { if (dims.empty()) return 1; size_t c = 1; for (int d : dims) c *= (size_t)d; return c; }
@@ -75,7 +75,7 @@ inline std::string decode(const std::string& b, File& F, bool allowLeadingZeros 
     F.keyLabel = rd16(b, H(294)); F.firstKeyBlock = rd16(b, H(296)); F.fourChar = rd16(b, H(298)); F.nEvents = rd16(b, H(300));
     for (int i = 0; i < 18; ++i) F.evTimes[i] = rd32(b, H(304 + 4 * (size_t)i));
     for (int i = 0; i < 18; ++i) F.evDisp[i] = (uint8_t)b[H(376 + (size_t)i)];
-    for (int i = 0; i < 18; ++i) F.evLabels[i].assign(&b[H(396 + 4 * (size_t)i)], 4);
+    for (int i = 0; i < 18; ++i) F.evLabels[i].assign(b.data() + H(396 + 4 * (size_t)i), 4);
     if (F.paramBlock == 0) return "parameter block address 0";
     F.paramOffset = base + 512 * (size_t)(F.paramBlock - 1);
     if (b.size() < F.paramOffset + 4) return "parameter section beyond end of file";
@@ -91,7 +91,7 @@ inline std::string decode(const std::string& b, File& F, bool allowLeadingZeros 
         Rec r; r.offset = pos; r.locked = nlen < 0; size_t n = (size_t)(nlen < 0 ? -nlen : nlen);
         int8_t gid = (int8_t)b[pos + 1]; r.isGroup = gid < 0; r.id = gid < 0 ? -gid : gid;
         if (pos + 2 + n + 2 > b.size()) return "record name runs past end of file";
-        r.name.assign(&b[pos + 2], n); r.nextField = pos + 2 + n; r.nextOffset = (int)rd16(b, r.nextField);
+        r.name.assign(b.data() + pos + 2, n); r.nextField = pos + 2 + n; r.nextOffset = (int)rd16(b, r.nextField);
         size_t q = r.nextField + 2;
         if (!r.isGroup) {
             if (q + 2 > b.size()) return "parameter header runs past end of file";
@@ -102,12 +102,12 @@ inline std::string decode(const std::string& b, File& F, bool allowLeadingZeros 
             for (int i = 0; i < nd; ++i) r.dims.push_back((int)(uint8_t)b[q + (size_t)i]); q += (size_t)nd;
             size_t bytes = r.elemCount() * (size_t)(r.type < 0 ? 1 : r.type);
             if (q + bytes > b.size()) return "parameter data runs past end of file";
-            r.dataOffset = q; r.data.assign((const uint8_t*)&b[q], (const uint8_t*)&b[q] + bytes); q += bytes;
+            r.dataOffset = q; r.data.assign((const uint8_t*)b.data() + q, (const uint8_t*)b.data() + q + bytes); q += bytes;
         }
         if (q + 1 > b.size()) return "description length past end of file";
         size_t dl = (size_t)(uint8_t)b[q]; q += 1;
         if (q + dl > b.size()) return "description runs past end of file";
-        r.desc.assign(&b[q], dl); q += dl; r.parsedEnd = q;
+        r.desc.assign(b.data() + q, dl); q += dl; r.parsedEnd = q;
         F.recs.push_back(r);
         if (r.nextOffset == 0) { F.termOffset = q; F.termByZeroOffset = true; break; }
         size_t nxt = r.nextField + (size_t)r.nextOffset;
